@@ -166,7 +166,77 @@ def big_body(ctx: Ctx, p: dict) -> None:
     ctx.case(p, nontrivial=True, classes=["region>32767px"])
 
 
+
+# ---------------------------------------------------------------------------------------------------------------
+# the step inside a pipeline: both cost volumes (the right-reference one exists with cross-checking) are aggregated
+# over the regions of THEIR reference / secondary images
+# ---------------------------------------------------------------------------------------------------------------
+@st.composite
+def pipeline_cases(draw):
+    pair = draw(gen.image_pair(min_rows=5, max_rows=9, min_cols=7, max_cols=12, max_val=40, masks=True,
+                               conventions="per-image"))
+    w = draw(st.sampled_from([1, 1, 3]))
+    a = draw(st.integers(-3, 1))
+    return {"pair": pair, "w": w, "measure": draw(st.sampled_from(["sad", "ssd"])), "sub": draw(st.sampled_from([1, 1, 2])),
+            "dist": draw(st.integers(1, 4)), "inten": draw(st.sampled_from([2.0, 5.0, 12.0, 50.0])),
+            "disp": [a, a + draw(st.integers(1, 3))], "validation": draw(st.integers(0, 3)) > 0}
+
+
+def pipeline_body(ctx: Ctx, p: dict) -> None:
+    from .. import drive
+
+    left, right, ml, mr = gen.materialise_pair(p["pair"])
+    H, W = left.shape
+    mlc = gen._mask(p["pair"].get("mask_left"), H, W, 0, 1)
+    mrc = gen._mask(p["pair"].get("mask_right"), H, W, 0, 1)
+    steps = [["matching_cost", {"matching_cost_method": p["measure"], "window_size": p["w"], "subpix": p["sub"]}],
+             ["aggregation", {"aggregation_method": "cbca", "cbca_distance": p["dist"], "cbca_intensity": p["inten"]}],
+             ["disparity", {"disparity_method": "wta"}]]
+    if p["validation"]:
+        steps.append(["validation", {"validation_method": "cross_checking_accurate"}])
+    snap = {}
+
+    def grab(when):
+        def f(machine, step, kind):
+            if kind != "aggregation":
+                return
+            for side, cv in (("left", machine.left_cv), ("right", machine.right_cv)):
+                if cv is not None and "cost_volume" in cv:
+                    snap[(when, side)] = (cv["cost_volume"].data.copy(), [float(d) for d in cv.coords["disp"].data],
+                                          int(cv.attrs["offset_row_col"]), int(cv.attrs["subpixel"]))
+        return f
+
+    drive.run_pipeline(left, right, gen.pipe_dict(steps), tuple(p["disp"]), msk_left=ml, msk_right=mr,
+                       spy=drive.Spy(before=grab("before"), after=grab("after")), **gen.conv_kwargs(p["pair"]))
+    big_total = 0
+    for side, (A, B, MA, MB) in (("left", (left, right, mlc, mrc)), ("right", (right, left, mrc, mlc))):
+        if ("before", side) not in snap:
+            if side == "left" or p["validation"]:
+                ctx.violation("C11/volume-not-aggregated", f"{side} cost volume missing at the aggregation step")
+            continue
+        cv, disps, off, sub = snap[("before", side)]
+        got = snap[("after", side)][0]
+        exp, big, cut = ref.aggregate(A.astype(np.float32), B.astype(np.float32), MA, MB, cv, disps, off, sub, p["dist"], p["inten"], 0, 0)
+        big_total += big if cut else 0
+        nan_in, nan_out = np.isnan(cv), np.isnan(got)
+        if (nan_in != nan_out).any():
+            r, c, k = np.argwhere(nan_in != nan_out)[0]
+            ctx.violation("C11/nan-cost-became-finite" if nan_in[r, c, k] else "C11/finite-cost-became-nan",
+                          f"{side} volume in a pipeline, cell {(int(r), int(c), int(k))}")
+        fin = ~nan_in & ~nan_out
+        bad = fin & (np.abs(got - exp) > 1e-5 * np.maximum(1.0, np.abs(exp)))
+        if bad.any():
+            r, c, k = np.argwhere(bad)[0]
+            ctx.violation("C11/not-region-average", f"{side} volume of a pipeline (reference image = {side}): cell "
+                                                    f"{(int(r), int(c), int(k))} d={disps[k]} got {got[r, c, k]} expected "
+                                                    f"{exp[r, c, k]} dist={p['dist']} inten={p['inten']} w={p['w']} sub={sub} "
+                                                    f"({int(bad.sum())} cells differ)")
+        ctx.judged += int(fin.sum())
+    ctx.case(p, nontrivial=bool(big_total), classes=["pipeline"] + (["right-reference-volume"] if p["validation"] else []))
+
+
 CHECKS = [
     Check("big-regions", big_body, enumerate=enumerate_big, exhaustive=True, budget={"quick": (2, 0), "thorough": (4, 0)}),
+    Check("pipeline", pipeline_body, strategy=pipeline_cases, budget={"quick": (8, 20), "thorough": (16, 400)}),
     Check("direct", body, strategy=cases, budget={"quick": (16, 60), "thorough": (16, 2000)}),
 ]
